@@ -31,13 +31,12 @@ static inline bool is_acq(int mo) { return mo == MO_CONSUME || mo == MO_ACQUIRE 
 static inline bool is_rel(int mo) { return mo == MO_RELEASE || mo == MO_ACQ_REL || mo == MO_SEQ_CST; }
 
 // ---------------------------------------------------------------------------
-// sync clocks per atomic location (4-byte units) and per sync object
+// sync clocks per sync object (mutexes, guards, futex wake edges); per-byte
+// clocks of atomic locations are defined further down
 typedef std::unordered_map<uintptr_t, VC, std::hash<uintptr_t>, std::equal_to<uintptr_t>,
                            MA<std::pair<const uintptr_t, VC>>> ClockMap;
-static ClockMap* g_loc;   // atomic locations
 static ClockMap* g_obj;   // mutexes, guards, futex words (wake edge)
 
-static inline ClockMap& loc() { if (!g_loc) g_loc = new (malloc(sizeof(ClockMap))) ClockMap(); return *g_loc; }
 static inline ClockMap& obj() { if (!g_obj) g_obj = new (malloc(sizeof(ClockMap))) ClockMap(); return *g_obj; }
 
 void hb_acquire_obj(uintptr_t key) {
@@ -65,28 +64,62 @@ void hb_edge(Thread* from, Thread* to) {
   from->vc.c[from->id]++;
 }
 
+// Release clocks are kept per BYTE: babylon packs independently published
+// one-byte control tags (hash table) and 16/32-bit halves (futex words) into one
+// word, and a release store to one byte must not wipe out the clock another
+// thread published through a neighbouring byte. The map is keyed by the aligned
+// 8-byte unit; each unit holds up to 8 lazily allocated per-byte clocks.
+struct Unit { VC* b[8]; };
+typedef std::unordered_map<uintptr_t, Unit, std::hash<uintptr_t>, std::equal_to<uintptr_t>,
+                           MA<std::pair<const uintptr_t, Unit>>> UnitMap;
+static UnitMap* g_units;
+static inline UnitMap& units() { if (!g_units) g_units = new (malloc(sizeof(UnitMap))) UnitMap(); return *g_units; }
+static void units_clear() {
+  if (!g_units) return;
+  for (auto& kv : *g_units) for (VC* v : kv.second.b) if (v) free(v);
+  g_units->clear();
+}
+
 static inline void loc_acquire(Thread* me, uintptr_t addr, size_t size, bool acq) {
-  if (!g_loc || g_loc->empty()) return;
-  for (uintptr_t u = addr & ~(uintptr_t)3; u < addr + size; u += 4) {
-    auto it = g_loc->find(u);
-    if (it == g_loc->end()) continue;
-    if (acq) me->vc.join(it->second);
-    else { me->pend_acq.join(it->second); me->has_pend_acq = true; }
+  if (!g_units || g_units->empty()) return;
+  for (uintptr_t a = addr; a < addr + size;) {
+    uintptr_t u = a & ~(uintptr_t)7;
+    auto it = g_units->find(u);
+    uintptr_t end = u + 8 < addr + size ? u + 8 : addr + size;
+    if (it != g_units->end())
+      for (uintptr_t x = a; x < end; x++) {
+        VC* v = it->second.b[x - u];
+        if (!v) continue;
+        if (acq) me->vc.join(*v);
+        else { me->pend_acq.join(*v); me->has_pend_acq = true; }
+      }
+    a = end;
   }
 }
-// plain store semantics: replaces the location clock
+// plain store semantics: replaces the clock of every byte written
 static inline void loc_store(uintptr_t addr, size_t size, bool release, const VC* vc) {
-  for (uintptr_t u = addr & ~(uintptr_t)3; u < addr + size; u += 4) {
-    if (release) loc()[u] = *vc;
-    else if (g_loc) { auto it = g_loc->find(u); if (it != g_loc->end()) g_loc->erase(it); }
+  if (!release && (!g_units || g_units->empty())) return;
+  for (uintptr_t x = addr; x < addr + size; x++) {
+    uintptr_t u = x & ~(uintptr_t)7;
+    if (release) {
+      Unit& un = units()[u];
+      VC*& v = un.b[x - u];
+      if (!v) v = (VC*)malloc(sizeof(VC));
+      *v = *vc;
+    } else {
+      auto it = g_units->find(u);
+      if (it != g_units->end() && it->second.b[x - u]) { free(it->second.b[x - u]); it->second.b[x - u] = nullptr; }
+    }
   }
 }
 // RMW semantics: continues the release sequence
 static inline void loc_rmw(uintptr_t addr, size_t size, const VC* add) {
   if (!add) return;
-  for (uintptr_t u = addr & ~(uintptr_t)3; u < addr + size; u += 4) {
-    auto it = loc().find(u);
-    if (it == loc().end()) loc()[u] = *add; else it->second.join(*add);
+  for (uintptr_t x = addr; x < addr + size; x++) {
+    uintptr_t u = x & ~(uintptr_t)7;
+    Unit& un = units()[u];
+    VC*& v = un.b[x - u];
+    if (!v) { v = (VC*)malloc(sizeof(VC)); *v = *add; } else v->join(*add);
   }
 }
 
@@ -445,7 +478,7 @@ static void a_fence(int mo) {
 void check_sync_object(uintptr_t a, size_t n) { heap_check(a, n, true); }
 
 void mem_reset_run() {
-  if (g_loc) g_loc->clear();
+  units_clear();
   if (g_obj) g_obj->clear();
   if (g_watch) g_watch->clear();
   if (g_hb) { for (auto& r : *g_hb) free(r.cells); g_hb->clear(); }
